@@ -862,6 +862,20 @@ fn extract_oracle(
     rn: &HashMap<String, String>,
     run: &ExtractRun,
     t_before: Option<&Path>, // the target dir as it was before the run (None: it was empty)
+) -> (Verdict, Vec<String>) {
+    let mut classes: Vec<String> = vec![];
+    let v = extract_oracle_inner(ps, pre, filter, rn, run, t_before, &mut classes);
+    (v, classes)
+}
+const CLASS_STALE_ALIAS: &str = "stale_alias_reported_as_already_extracted";
+fn extract_oracle_inner(
+    ps: &[Presented],
+    pre: &Tree,
+    filter: &Option<Vec<String>>,
+    rn: &HashMap<String, String>,
+    run: &ExtractRun,
+    t_before: Option<&Path>,
+    classes: &mut Vec<String>,
 ) -> Verdict {
     let fail = |c: &str, d: String| Verdict::Fail { clause: c.into(), detail: d };
     if !run.untouched {
@@ -873,6 +887,7 @@ fn extract_oracle(
     let renamed = |n: &str| rn.get(n).cloned().unwrap_or_else(|| n.to_string());
     // names of the filter that are already there (as files, inside) are reported first and not extracted again
     let mut expected: Vec<String> = vec![];
+    let mut found_before: Vec<(String, String)> = vec![]; // (requested member name, reported name)
     let mut remaining: Option<Vec<String>> = None;
     if let Some(fl) = filter {
         let mut keep = vec![];
@@ -881,6 +896,7 @@ fn extract_oracle(
             // "already extracted": the name stays inside and designates an existing file (asked from the real file system)
             let there = norm(&n).is_some() && t_before.map_or(false, |t| t.join(&n).is_file());
             if there {
+                found_before.push((f.clone(), n.clone()));
                 expected.push(n)
             } else {
                 keep.push(f.clone())
@@ -936,6 +952,26 @@ fn extract_oracle(
                         }
                     }
                     _ => return fail("extract_reported_inside", format!("reported name {:?} leads outside", r)),
+                }
+            }
+            // a member reported as "already extracted" must be there with ITS bytes
+            for (f, n) in &found_before {
+                let member = ps.iter().rev().find(|p| p.name == *f && !p.is_dir && !p.is_symlink);
+                if let (Some(m), Some(loc)) = (member, norm(n)) {
+                    if let Some(Node::File(c)) = run.tree.get(&loc) {
+                        if *c != m.data {
+                            // known finding: the file was written for another member whose name is a different
+                            // string but the same path
+                            let alias = ps.iter().any(|q| q.name != *f && !q.is_dir && !q.is_symlink && q.data == *c && norm(&renamed(&q.name)).as_ref() == Some(&loc));
+                            if alias {
+                                classes.push(CLASS_STALE_ALIAS.to_string());
+                            }
+                            return fail(
+                                "extract_faithful_already_there",
+                                format!("{:?} is reported as already extracted, but {:?} holds {:?}, the member has {:?}", n, loc, &c[..c.len().min(16)], &m.data[..m.data.len().min(16)]),
+                            );
+                        }
+                    }
                 }
             }
             Verdict::Ok
@@ -1098,23 +1134,14 @@ fn name_tags(ps: &[Presented], tags: &mut Vec<String>) -> bool {
     hostile
 }
 
-#[allow(clippy::too_many_arguments)]
-fn record_extract(sink: &mut Sink, ms_in: &[MSpec], dup: &[(String, String)], pre: &[(String, Option<Vec<u8>>)], filter_in: Option<Vec<String>>, rn: Vec<(String, String)>, vols_seed: u64, extra_tag: &str) {
-    let sb = sandbox();
-    let ms: Vec<MSpec> = ms_in.iter().map(|m| MSpec { name: sb.absolutize(&m.name), ..m.clone() }).collect();
-    let ms = &ms[..];
-    let filter: Option<Vec<String>> = filter_in.as_ref().map(|f| f.iter().map(|n| sb.absolutize(n)).collect());
-    let bytes = match write_zip(ms, dup) {
-        Some(b) => b,
-        None => return,
-    };
-    let ps = match present(&bytes) {
-        Some(p) => p,
-        None => return,
-    };
-    // what the target dir holds before
+fn tree_as_pre(t: &Tree) -> Vec<(String, Option<Vec<u8>>)> {
+    t.iter()
+        .map(|(k, n)| (k.join("/"), match n { Node::File(c) => Some(c.clone()), _ => None }))
+        .collect()
+}
+fn populate(dir: &Path, pre: &[(String, Option<Vec<u8>>)]) {
     for (p, c) in pre {
-        let full = sb.t.join(p);
+        let full = dir.join(p);
         match c {
             None => std::fs::create_dir_all(&full).unwrap(),
             Some(c) => {
@@ -1123,41 +1150,10 @@ fn record_extract(sink: &mut Sink, ms_in: &[MSpec], dup: &[(String, String)], pr
             }
         }
     }
-    let pre_tree = tree_of(&sb.t);
-    // a copy of the target dir as it is before the run, for the oracle
-    let t_copy = sb.outer.join("t_before");
-    copy_tree(&sb.t, &t_copy);
-    let mut vrng = Rng::new(vols_seed);
-    let vols = if vols_seed == 0 {
-        vec![bytes.clone()]
-    } else if vols_seed & MEMBER_SPLIT != 0 {
-        split_at_members(&mut vrng, &bytes)
-    } else {
-        split_volumes(&mut vrng, &bytes)
-    };
-    let nvols = vols.len();
-    let rn_map: HashMap<String, String> = rn.iter().cloned().collect();
-    let cancel = Arc::new(AtomicBool::new(false));
-    let t = sb.t.clone();
-    let (f2, rn2) = (filter.clone(), rn_map.clone());
-    let r = catch_loc(move || {
-        let chain = SeekableChain::new(vols.into_iter().map(Cursor::new).collect::<Vec<_>>());
-        extract_to_dir(chain, &t, f2, &rn2, &cancel)
-    });
-    let result = match r {
-        Err(p) => Err(format!("panic: {}", p)),
-        Ok(Err(e)) => Err(e.to_string()),
-        Ok(Ok(v)) => Ok(v.iter().map(|p| p.to_string_lossy().to_string()).collect::<Vec<_>>()),
-    };
-    let panicked = matches!(&result, Err(e) if e.starts_with("panic: "));
-    let run = ExtractRun { result, tree: tree_of(&sb.t), untouched: sb.untouched(None) };
-    let mut verdict = extract_oracle(&ps, &pre_tree, &filter, &rn_map, &run, Some(&t_copy));
-    if panicked {
-        verdict = Verdict::Fail { clause: "extract_no_panic".into(), detail: run.result.clone().unwrap_err() };
-    }
-    let inside = clist(
-        &pre_tree
-            .iter()
+}
+fn ctree(t: &Tree) -> String {
+    clist(
+        &t.iter()
             .map(|(k, n)| {
                 format!(
                     "({}, {})",
@@ -1169,58 +1165,23 @@ fn record_extract(sink: &mut Sink, ms_in: &[MSpec], dup: &[(String, String)], pr
                 )
             })
             .collect::<Vec<_>>(),
-    );
-    let cfilter = copt(filter.as_ref().map(|f| clist(&f.iter().map(|s| cstr(s)).collect::<Vec<_>>())));
-    let crn = clist(&rn.iter().map(|(a, b)| format!("({}, {})", cstr(a), cstr(b))).collect::<Vec<_>>());
-    let input_coq = format!("CExtract {} {} {} {}", inside, cfilter, crn, cmembers(&ps));
-    let mut tags = vec!["extract_to_dir".to_string(), format!("archive_volumes{}", nvols.min(5))];
-    if vols_seed & MEMBER_SPLIT != 0 {
-        tags.push("volumes_cut_at_member_boundaries".into());
+    )
+}
+fn refresh_copy(from: Option<&Path>, to: &Path) {
+    let _ = std::fs::remove_dir_all(to);
+    match from {
+        Some(f) => copy_tree(f, to),
+        None => std::fs::create_dir_all(to).unwrap(),
     }
-    let hostile = name_tags(&ps, &mut tags);
-    if filter.is_some() {
-        tags.push("with_filter".into())
-    }
-    if !rn.is_empty() {
-        tags.push("with_rename".into())
-    }
-    if !pre.is_empty() {
-        tags.push("target_dir_not_empty".into())
-    }
-    if !dup.is_empty() {
-        tags.push("duplicate_member_names".into())
-    }
-    if run.result.is_err() {
-        tags.push("extract_returned_err".into())
-    }
-    if !extra_tag.is_empty() {
-        tags.push(extra_tag.into())
-    }
-    tags.sort();
-    tags.dedup();
-    let nontrivial = hostile && matches!(&run.result, Ok(v) if !v.is_empty());
-    let id = sink.next_id();
-    sink.push(Case {
-        id,
-        key: input_coq.clone(),
-        input_coq,
-        input_json: json!({"part": "extract",
-            "members": ms_in.iter().map(|m| json!({"name": m.name, "kind": m.kind, "data": m.data, "deflate": m.deflate})).collect::<Vec<_>>(),
-            "dup": dup, "pre": pre, "filter": filter_in, "rename": rn, "vols_seed": vols_seed}),
-        obs: o_run(&run),
-        verdict,
-        classes: vec![],
-        tags,
-        nontrivial,
-    });
 }
 
-fn record_archives(sink: &mut Sink, ms_in: &[MSpec], dup: &[(String, String)], stem: &str, pattern_in: &str, bang: bool, multi_vol: u64, extra_tag: &str) {
+/// One archive, one target dir, a SEQUENCE of extract_to_dir calls (one files_filter each) into that same
+/// dir; every call is recorded as its own case whose input holds the state of the dir before the call.
+#[allow(clippy::too_many_arguments)]
+fn record_extract_seq(sink: &mut Sink, ms_in: &[MSpec], dup: &[(String, String)], pre: &[(String, Option<Vec<u8>>)], filters_in: &[Option<Vec<String>>], rn: Vec<(String, String)>, vols_seed: u64, extra_tag: &str) {
     let sb = sandbox();
     let ms: Vec<MSpec> = ms_in.iter().map(|m| MSpec { name: sb.absolutize(&m.name), ..m.clone() }).collect();
     let ms = &ms[..];
-    let pattern_owned = sb.absolutize(pattern_in);
-    let pattern = pattern_owned.as_str();
     let bytes = match write_zip(ms, dup) {
         Some(b) => b,
         None => return,
@@ -1229,9 +1190,111 @@ fn record_archives(sink: &mut Sink, ms_in: &[MSpec], dup: &[(String, String)], s
         Some(p) => p,
         None => return,
     };
-    let pat = match glob::Pattern::new(pattern) {
-        Ok(p) => p,
-        Err(_) => return,
+    populate(&sb.t, pre);
+    let rn_map: HashMap<String, String> = rn.iter().cloned().collect();
+    for (step, filter_in) in filters_in.iter().enumerate() {
+        let filter: Option<Vec<String>> = filter_in.as_ref().map(|f| f.iter().map(|n| sb.absolutize(n)).collect());
+        let pre_tree = tree_of(&sb.t);
+        // a copy of the target dir as it is before the run, for the oracle
+        let t_copy = sb.outer.join("t_before");
+        refresh_copy(Some(&sb.t), &t_copy);
+        let mut vrng = Rng::new(vols_seed.wrapping_add(step as u64));
+        let vols = if vols_seed == 0 {
+            vec![bytes.clone()]
+        } else if vols_seed & MEMBER_SPLIT != 0 {
+            split_at_members(&mut vrng, &bytes)
+        } else {
+            split_volumes(&mut vrng, &bytes)
+        };
+        let nvols = vols.len();
+        let cancel = Arc::new(AtomicBool::new(false));
+        let t = sb.t.clone();
+        let (f2, rn2) = (filter.clone(), rn_map.clone());
+        let r = catch_loc(move || {
+            let chain = SeekableChain::new(vols.into_iter().map(Cursor::new).collect::<Vec<_>>());
+            extract_to_dir(chain, &t, f2, &rn2, &cancel)
+        });
+        let result = match r {
+            Err(p) => Err(format!("panic: {}", p)),
+            Ok(Err(e)) => Err(e.to_string()),
+            Ok(Ok(v)) => Ok(v.iter().map(|p| p.to_string_lossy().to_string()).collect::<Vec<_>>()),
+        };
+        let panicked = matches!(&result, Err(e) if e.starts_with("panic: "));
+        let run = ExtractRun { result, tree: tree_of(&sb.t), untouched: sb.untouched(None) };
+        let (mut verdict, classes) = extract_oracle(&ps, &pre_tree, &filter, &rn_map, &run, Some(&t_copy));
+        if panicked {
+            verdict = Verdict::Fail { clause: "extract_no_panic".into(), detail: run.result.clone().unwrap_err() };
+        }
+        let cfilter = copt(filter.as_ref().map(|f| clist(&f.iter().map(|s| cstr(s)).collect::<Vec<_>>())));
+        let crn = clist(&rn.iter().map(|(a, b)| format!("({}, {})", cstr(a), cstr(b))).collect::<Vec<_>>());
+        let input_coq = format!("CExtract {} {} {} {}", ctree(&pre_tree), cfilter, crn, cmembers(&ps));
+        let mut tags = vec!["extract_to_dir".to_string(), format!("archive_volumes{}", nvols.min(5))];
+        if vols_seed & MEMBER_SPLIT != 0 {
+            tags.push("volumes_cut_at_member_boundaries".into());
+        }
+        let hostile = name_tags(&ps, &mut tags);
+        if filter.is_some() {
+            tags.push("with_filter".into())
+        }
+        if !rn.is_empty() {
+            tags.push("with_rename".into())
+        }
+        if !pre_tree.is_empty() {
+            tags.push("target_dir_not_empty".into())
+        }
+        if step > 0 {
+            tags.push("target_dir_reused_by_a_later_call".into())
+        }
+        if !dup.is_empty() {
+            tags.push("duplicate_member_names".into())
+        }
+        if run.result.is_err() {
+            tags.push("extract_returned_err".into())
+        }
+        if !extra_tag.is_empty() {
+            tags.push(extra_tag.into())
+        }
+        tags.sort();
+        tags.dedup();
+        let nontrivial = (hostile || extra_tag.contains("alias")) && matches!(&run.result, Ok(v) if !v.is_empty());
+        let id = sink.next_id();
+        // the replay of a later call starts from the tree the earlier calls left
+        let pre_json = if step == 0 { pre.to_vec() } else { tree_as_pre(&pre_tree) };
+        sink.push(Case {
+            id,
+            key: input_coq.clone(),
+            input_coq,
+            input_json: json!({"part": "extract",
+                "members": ms_in.iter().map(|m| json!({"name": m.name, "kind": m.kind, "data": m.data, "deflate": m.deflate})).collect::<Vec<_>>(),
+                "dup": dup, "pre": pre_json, "filter": filter_in, "rename": rn, "vols_seed": vols_seed.wrapping_add(step as u64)}),
+            obs: o_run(&run),
+            verdict,
+            classes,
+            tags,
+            nontrivial,
+        });
+    }
+}
+#[allow(clippy::too_many_arguments)]
+fn record_extract(sink: &mut Sink, ms_in: &[MSpec], dup: &[(String, String)], pre: &[(String, Option<Vec<u8>>)], filter_in: Option<Vec<String>>, rn: Vec<(String, String)>, vols_seed: u64, extra_tag: &str) {
+    record_extract_seq(sink, ms_in, dup, pre, &[filter_in], rn, vols_seed, extra_tag)
+}
+
+/// One archive on disk, a SEQUENCE of extract_archives calls (one glob pattern each) sharing the list of temp
+/// dirs, so that later calls reuse the temp dir of the archive.  `start_pre`: the temp dir already exists with
+/// this content before the first call (replay of a later call).
+#[allow(clippy::too_many_arguments)]
+fn record_archives_seq(sink: &mut Sink, ms_in: &[MSpec], dup: &[(String, String)], stem: &str, patterns_in: &[String], bang: bool, multi_vol: u64, start_pre: Option<&[(String, Option<Vec<u8>>)]>, extra_tag: &str) {
+    let sb = sandbox();
+    let ms: Vec<MSpec> = ms_in.iter().map(|m| MSpec { name: sb.absolutize(&m.name), ..m.clone() }).collect();
+    let ms = &ms[..];
+    let bytes = match write_zip(ms, dup) {
+        Some(b) => b,
+        None => return,
+    };
+    let ps = match present(&bytes) {
+        Some(p) => p,
+        None => return,
     };
     // the archive lives in outer/arch; the temp dirs of extract_archives are made in outer/l1/l2/l3
     let adir = sb.outer.join("arch");
@@ -1247,125 +1310,174 @@ fn record_archives(sink: &mut Sink, ms_in: &[MSpec], dup: &[(String, String)], s
         std::fs::write(&p, &bytes).unwrap();
         p
     };
-    let file_name = format!("{}{}{}", first.to_string_lossy(), if bang { "!/" } else { "/" }, pattern);
-    // the split of "archive/glob" is not part of the model: only texts that extract_archives reads as intended
-    match adlt::utils::unzip::archive_get_path_and_glob(Path::new(&file_name)) {
-        Some((ap, gp)) if ap == first && gp.as_str() == pattern => {}
-        _ => {
-            *sink.extra_stats.entry("archives_glob_text_not_parsed_as_intended(skipped)".into()).or_insert(json!(0)) =
-                json!(sink.extra_stats.get("archives_glob_text_not_parsed_as_intended(skipped)").and_then(|v| v.as_u64()).unwrap_or(0) + 1);
-            return;
-        }
-    }
-    let log = slog::Logger::root(slog::Discard, slog::o!());
-    let cancel = Arc::new(AtomicBool::new(false));
-    let fname = file_name.clone();
-    std::env::set_var("TMPDIR", &sb.l3);
-    let r = catch_loc(move || {
-        let mut tds = vec![];
-        let v = extract_archives(fname, &mut tds, &cancel, &log);
-        (v, tds)
-    });
-    match &*ORIG_TMPDIR {
-        Some(v) => std::env::set_var("TMPDIR", v),
-        None => std::env::remove_var("TMPDIR"),
-    }
     // the archive stem as extract_archives computes it (file_stem of the archive path)
     let astem = first.file_stem().unwrap().to_string_lossy().to_string();
-    let entries: Vec<(String, bool)> = ps.iter().map(|p| (p.name.clone(), pat.matches(&p.name))).collect();
-    let stem_matches = pat.matches(&astem);
+    let log = slog::Logger::root(slog::Discard, slog::o!());
+    let cancel = Arc::new(AtomicBool::new(false));
+    let mut tds: Vec<(String, tempfile::TempDir)> = vec![];
+    if let Some(pre) = start_pre {
+        let td = tempfile::Builder::new().tempdir_in(&sb.l3).expect("tempdir_in");
+        populate(td.path(), pre);
+        tds.push((first.canonicalize().unwrap().to_string_lossy().to_string(), td));
+    }
     let fail = |c: &str, d: String| Verdict::Fail { clause: c.into(), detail: d };
-    let (obs, verdict, is_err, n_rep) = match r {
-        Err(p) => (O::T(vec![O::L(3)]), fail("extract_no_panic", p), false, 0),
-        Ok((v, tds)) => {
-            if tds.is_empty() {
-                let untouched = sb.untouched(None);
-                if v.is_empty() {
-                    // nothing matched
-                    let any = if entries.len() == 1 && entries[0].0 == "data" {
-                        pattern == "data" || astem == pattern || stem_matches
-                    } else {
-                        entries.iter().any(|(e, m)| (e == pattern || *m) && !e.ends_with('/'))
-                    };
-                    let verdict = if any {
+    for (step, pattern_in) in patterns_in.iter().enumerate() {
+        let pattern_owned = sb.absolutize(pattern_in);
+        let pattern = pattern_owned.as_str();
+        let pat = match glob::Pattern::new(pattern) {
+            Ok(p) => p,
+            Err(_) => continue,
+        };
+        let file_name = format!("{}{}{}", first.to_string_lossy(), if bang { "!/" } else { "/" }, pattern);
+        // the split of "archive/glob" is not part of the model: only texts that extract_archives reads as intended
+        match adlt::utils::unzip::archive_get_path_and_glob(Path::new(&file_name)) {
+            Some((ap, gp)) if ap == first && gp.as_str() == pattern => {}
+            _ => {
+                *sink.extra_stats.entry("archives_glob_text_not_parsed_as_intended(skipped)".into()).or_insert(json!(0)) =
+                    json!(sink.extra_stats.get("archives_glob_text_not_parsed_as_intended(skipped)").and_then(|v| v.as_u64()).unwrap_or(0) + 1);
+                continue;
+            }
+        }
+        let reuse = !tds.is_empty();
+        let tdir_before: Option<PathBuf> = tds.first().map(|t| t.1.path().to_path_buf());
+        let pre_tree = tdir_before.as_ref().map(|d| tree_of(d)).unwrap_or_default();
+        let t_copy = sb.outer.join("t_before");
+        refresh_copy(tdir_before.as_deref(), &t_copy);
+        let fname = file_name.clone();
+        std::env::set_var("TMPDIR", &sb.l3);
+        let r = {
+            let tds_ref = std::panic::AssertUnwindSafe(&mut tds);
+            let (cancel, log) = (cancel.clone(), log.clone());
+            catch_loc(move || {
+                let tds_ref = tds_ref;
+                extract_archives(fname, tds_ref.0, &cancel, &log)
+            })
+        };
+        match &*ORIG_TMPDIR {
+            Some(v) => std::env::set_var("TMPDIR", v),
+            None => std::env::remove_var("TMPDIR"),
+        }
+        let entries: Vec<(String, bool)> = ps.iter().map(|p| (p.name.clone(), pat.matches(&p.name))).collect();
+        let stem_matches = pat.matches(&astem);
+        // selection by the oracle
+        let single_data = entries.len() == 1 && entries[0].0 == "data";
+        let (sel, rn): (Vec<String>, HashMap<String, String>) = if single_data {
+            if pattern == "data" {
+                (vec!["data".into()], HashMap::new())
+            } else if astem == pattern || stem_matches {
+                (vec!["data".into()], [("data".to_string(), astem.clone())].into_iter().collect())
+            } else {
+                (vec![], HashMap::new())
+            }
+        } else {
+            (entries.iter().filter(|(e, m)| (e == pattern || *m) && !e.ends_with('/')).map(|(e, _)| e.clone()).collect(), HashMap::new())
+        };
+        let tdir_now: Option<PathBuf> = tds.first().map(|t| t.1.path().to_path_buf());
+        let untouched = sb.untouched(tdir_now.as_deref());
+        let mut classes = vec![];
+        let (obs, verdict, is_err, n_rep) = match r {
+            Err(p) => (O::T(vec![O::L(3)]), fail("extract_no_panic", p), false, 0),
+            Ok(v) => {
+                // an empty answer: either nothing was selected (no temp dir is made / touched), or the selected
+                // members were all refused; told apart by the temp dir list (new dir) resp. the selection (reused dir)
+                let nothing_selected = v.is_empty() && if reuse { sel.is_empty() } else { tdir_now.is_none() };
+                if nothing_selected {
+                    let verdict = if !sel.is_empty() {
                         fail("extract_exact_set", "members match but nothing was extracted".into())
-                    } else if !untouched {
-                        fail("extract_confined", "outside changed".into())
+                    } else if !untouched || tdir_now.as_ref().map_or(false, |d| tree_of(d) != pre_tree) {
+                        fail("extract_confined", "something changed although nothing matched".into())
                     } else {
                         Verdict::Ok
                     };
                     (O::T(vec![O::L(2), O::T(vec![]), O::T(vec![]), O::L(1)]), verdict, false, 0)
                 } else if v == vec![file_name.clone()] {
-                    // extraction failed (or not recognised as an archive): nothing may be left behind outside
-                    let verdict = if untouched { Verdict::Ok } else { fail("extract_confined", "outside changed".into()) };
-                    (O::T(vec![O::L(1), O::T(vec![]), O::T(vec![]), O::b(untouched)]), verdict, true, 0)
-                } else {
-                    (O::T(vec![O::L(4)]), fail("extract_reported_inside", format!("no temp dir but reported {:?}", v)), false, 0)
-                }
-            } else {
-                let tdir = tds[0].1.path().to_path_buf();
-                let prefix = format!("{}/", tdir.to_string_lossy());
-                let mut rel = vec![];
-                let mut outside = None;
-                for s in &v {
-                    match s.strip_prefix(&prefix) {
-                        Some(r) => rel.push(r.to_string()),
-                        None => outside = Some(s.clone()),
-                    }
-                }
-                let untouched = sb.untouched(Some(&tdir));
-                let run = ExtractRun { result: Ok(rel), tree: tree_of(&tdir), untouched };
-                // selection by the oracle
-                let (filter, rn): (Vec<String>, HashMap<String, String>) = if entries.len() == 1 && entries[0].0 == "data" {
-                    if pattern == "data" {
-                        (vec!["data".into()], HashMap::new())
+                    // extraction failed: a new temp dir is dropped, a reused one keeps what was written
+                    let tree = if reuse { tdir_now.as_ref().map(|d| tree_of(d)).unwrap_or_default() } else { Tree::new() };
+                    let run = ExtractRun { result: Err("extract_archives returned the archive name".into()), tree, untouched };
+                    let verdict = if !reuse && tdir_now.is_some() {
+                        fail("extract_exact_set", "a failed extraction left a registered temp dir".into())
                     } else {
-                        (vec!["data".into()], [("data".to_string(), astem.clone())].into_iter().collect())
-                    }
+                        let (v, c) = extract_oracle(&ps, &pre_tree, &Some(sel.clone()), &rn, &run, Some(&t_copy));
+                        classes = c;
+                        v
+                    };
+                    (o_run(&run), verdict, true, 0)
                 } else {
-                    (entries.iter().filter(|(e, m)| (e == pattern || *m) && !e.ends_with('/')).map(|(e, _)| e.clone()).collect(), HashMap::new())
-                };
-                let mut verdict = extract_oracle(&ps, &Tree::new(), &Some(filter), &rn, &run, None);
-                if let Some(s) = outside {
-                    verdict = fail("extract_reported_inside", format!("reported path {:?} is not inside the temp dir {:?}", s, tdir));
+                    match &tdir_now {
+                        None => (O::T(vec![O::L(4)]), fail("extract_reported_inside", format!("no temp dir but reported {:?}", v)), false, 0),
+                        Some(tdir) => {
+                            let prefix = format!("{}/", tdir.to_string_lossy());
+                            let mut rel = vec![];
+                            let mut outside = None;
+                            for s in &v {
+                                match s.strip_prefix(&prefix) {
+                                    Some(r) => rel.push(r.to_string()),
+                                    None => outside = Some(s.clone()),
+                                }
+                            }
+                            let run = ExtractRun { result: Ok(rel), tree: tree_of(tdir), untouched };
+                            let (mut verdict, c) = extract_oracle(&ps, &pre_tree, &Some(sel.clone()), &rn, &run, Some(&t_copy));
+                            classes = c;
+                            if let Some(s) = outside {
+                                verdict = fail("extract_reported_inside", format!("reported path {:?} is not inside the temp dir {:?}", s, tdir));
+                                classes.clear();
+                            }
+                            if reuse && tdir_before.as_ref() != Some(tdir) {
+                                verdict = fail("extract_exact_set", "the temp dir of the archive was not reused".into());
+                                classes.clear();
+                            }
+                            let n = run.result.as_ref().map(|v| v.len()).unwrap_or(0);
+                            (o_run(&run), verdict, false, n)
+                        }
+                    }
                 }
-                let n = run.result.as_ref().map(|v| v.len()).unwrap_or(0);
-                (o_run(&run), verdict, false, n)
             }
+        };
+        let centries = clist(&entries.iter().map(|(e, m)| format!("({}, {})", cstr(e), cbool(*m))).collect::<Vec<_>>());
+        let input_coq = format!("CArchives {} {} {} {} {} {} {}", cbool(reuse), ctree(&pre_tree), cstr(pattern), centries, cstr(&astem), cbool(stem_matches), cmembers(&ps));
+        let mut tags = vec!["extract_archives".to_string(), if multi_vol >= 2 { "multi_volume_files".to_string() } else { "single_file".to_string() }];
+        let hostile = name_tags(&ps, &mut tags);
+        if is_err {
+            tags.push("extract_returned_err".into())
         }
-    };
-    let centries = clist(&entries.iter().map(|(e, m)| format!("({}, {})", cstr(e), cbool(*m))).collect::<Vec<_>>());
-    let input_coq = format!("CArchives {} {} {} {} {}", cstr(pattern), centries, cstr(&astem), cbool(stem_matches), cmembers(&ps));
-    let mut tags = vec!["extract_archives".to_string(), if multi_vol >= 2 { "multi_volume_files".to_string() } else { "single_file".to_string() }];
-    let hostile = name_tags(&ps, &mut tags);
-    if is_err {
-        tags.push("extract_returned_err".into())
-    }
-    if bang {
-        tags.push("glob_after_bang".into())
-    }
-    if !dup.is_empty() {
-        tags.push("duplicate_member_names".into())
-    }
-    if !extra_tag.is_empty() {
-        tags.push(extra_tag.into())
-    }
-    tags.sort();
-    tags.dedup();
-    let id = sink.next_id();
-    sink.push(Case {
-        id,
-        key: input_coq.clone(),
-        input_coq,
-        input_json: json!({"part": "archives",
+        if reuse {
+            tags.push("temp_dir_reused_by_a_later_call".into())
+        }
+        if bang {
+            tags.push("glob_after_bang".into())
+        }
+        if !dup.is_empty() {
+            tags.push("duplicate_member_names".into())
+        }
+        if !extra_tag.is_empty() {
+            tags.push(extra_tag.into())
+        }
+        tags.sort();
+        tags.dedup();
+        let id = sink.next_id();
+        let mut ij = json!({"part": "archives",
             "members": ms_in.iter().map(|m| json!({"name": m.name, "kind": m.kind, "data": m.data, "deflate": m.deflate})).collect::<Vec<_>>(),
-            "dup": dup, "stem": stem, "pattern": pattern_in, "bang": bang, "multi_vol": multi_vol}),
-        obs,
-        verdict,
-        classes: vec![],
-        tags,
-        nontrivial: hostile && n_rep > 0,
-    });
+            "dup": dup, "stem": stem, "pattern": pattern_in, "bang": bang, "multi_vol": multi_vol});
+        if reuse {
+            ij["pre"] = json!(tree_as_pre(&pre_tree));
+        }
+        sink.push(Case {
+            id,
+            key: input_coq.clone(),
+            input_coq,
+            input_json: ij,
+            obs,
+            verdict,
+            classes,
+            tags,
+            nontrivial: (hostile || extra_tag.contains("alias")) && n_rep > 0,
+        });
+        let _ = step;
+    }
+}
+#[allow(clippy::too_many_arguments)]
+fn record_archives(sink: &mut Sink, ms_in: &[MSpec], dup: &[(String, String)], stem: &str, pattern_in: &str, bang: bool, multi_vol: u64, extra_tag: &str) {
+    record_archives_seq(sink, ms_in, dup, stem, &[pattern_in.to_string()], bang, multi_vol, None, extra_tag)
 }
 
 const NICE: &[&str] = &["a.dlt", "b.dlt", "dir/c.dlt", "dir/sub/d.dlt", "dir/e.txt", "x.bin", "dir2/f.dlt", "dir/", "dir/sub/", "empty/", "g h.dlt", "ü/ö.dlt"];
@@ -1427,7 +1539,8 @@ fn gen_extract_case(rng: &mut Rng, sink: &mut Sink) {
     // the target dir may already hold some of the members (an earlier extraction of the same archive), or a directory
     let mut pre: Vec<(String, Option<Vec<u8>>)> = vec![];
     if rng.chance(1, 3) {
-        for m in ms.iter().filter(|m| m.kind == 0) {
+        // (not the byte-patched duplicates: the zip crate presents one member with the later bytes)
+        for m in ms.iter().filter(|m| m.kind == 0 && !m.name.starts_with("dup")) {
             if let Some(loc) = norm(&m.name) {
                 if !loc.is_empty() && rng.chance(1, 2) && !pre.iter().any(|(p, _)| p.starts_with(&loc.join("/")) || loc.join("/").starts_with(p.as_str())) {
                     pre.push((loc.join("/"), Some(m.data.clone())));
@@ -1461,6 +1574,120 @@ fn gen_member_split_case(rng: &mut Rng, sink: &mut Sink) {
     let filter = if rng.chance(1, 4) { Some(ms.iter().skip(1).map(|m| m.name.clone()).collect()) } else { None };
     let seed = ((rng.next() | MEMBER_SPLIT) & !(1 << 63)) | 1;
     record_extract(sink, &ms, &[], &[], filter, vec![], seed, "family_member_boundary_split");
+}
+
+
+/// Family "alias": a group of members whose names are DIFFERENT strings but equal or overlapping as paths
+/// (repeated separators, "." components, a detour through "..", a trailing separator, a leading "./"), plus
+/// look-alikes that are different paths on a case-sensitive, non-normalising file system (case variants,
+/// NFC / NFD spellings); every member has its own bytes.
+fn alias_group(rng: &mut Rng) -> Vec<MSpec> {
+    let (a, b): (&str, &str) = *rng.pick(&[("d", "x.dlt"), ("a", "b"), ("dir", "c.dlt"), ("p/q", "r.dlt"), ("d", "\u{e9}.dlt"), ("top", "m.n.dlt")]);
+    let canon = format!("{}/{}", a, b);
+    let mut variants: Vec<String> = vec![
+        format!("{}//{}", a, b),
+        format!("{}/./{}", a, b),
+        format!("./{}/{}", a, b),
+        format!("{}/c/../{}", a, b),
+        format!("{}/././{}", a, b),
+        format!(".//{}/{}", a, b),
+        format!("{}/../{}/{}", a, a.rsplit('/').next().unwrap(), b),
+        format!("{}/{}/", a, b),             // a directory entry with the same path
+        format!("{}/{}/.", a, b),            // names the file as if it were a directory
+        canon.to_uppercase(),                // a different path on Linux
+        format!("{}/{}", a, b.replace('\u{e9}', "e\u{301}")), // NFD spelling (equal to canon unless b has an accent)
+    ];
+    variants.retain(|v| *v != canon);
+    let mut names: Vec<String> = vec![];
+    if rng.chance(5, 6) {
+        names.push(canon.clone());
+    }
+    let k = rng.range(1, 4) as usize;
+    for _ in 0..k {
+        let v = rng.pick(&variants).clone();
+        if !names.contains(&v) {
+            names.push(v);
+        }
+    }
+    // order in the archive is random
+    for i in (1..names.len()).rev() {
+        let j = rng.below(i as u64 + 1) as usize;
+        names.swap(i, j);
+    }
+    names
+        .into_iter()
+        .map(|n| {
+            let kind = if n.ends_with('/') { 1 } else { 0 };
+            let data = if kind == 1 { vec![] } else { format!("<{}>", n).into_bytes() };
+            MSpec { name: n, kind, data, deflate: rng.chance(1, 4) }
+        })
+        .collect()
+}
+
+fn gen_alias_case(rng: &mut Rng, sink: &mut Sink) {
+    let group = alias_group(rng);
+    let mut ms: Vec<MSpec> = vec![];
+    // some ordinary members around the group
+    for n in ["z.dlt", "d/y.dlt", "other/w.txt"] {
+        if rng.chance(1, 2) {
+            ms.push(MSpec { name: n.into(), kind: 0, data: format!("[{}]", n).into_bytes(), deflate: false });
+        }
+    }
+    let at = rng.below(ms.len() as u64 + 1) as usize;
+    for (i, g) in group.iter().enumerate() {
+        ms.insert((at + i).min(ms.len()), g.clone());
+    }
+    let gnames: Vec<String> = group.iter().map(|m| m.name.clone()).collect();
+    let all: Vec<String> = ms.iter().map(|m| m.name.clone()).collect();
+    let dir_of = |n: &str| -> String {
+        let t = n.trim_start_matches("./").trim_start_matches('/');
+        t.split('/').next().unwrap_or("").to_string()
+    };
+    if rng.chance(1, 2) {
+        // extract_to_dir: 1..3 calls into the same dir; each file list selects one / some / all of the group
+        let calls = rng.range(1, 3) as usize;
+        let mut filters: Vec<Option<Vec<String>>> = vec![];
+        for _ in 0..calls {
+            let f = match rng.below(6) {
+                0 => None,
+                1 => Some(all.clone()),
+                2 | 3 => Some(vec![rng.pick(&gnames).clone()]),
+                _ => {
+                    let mut f: Vec<String> = gnames.iter().filter(|_| rng.chance(1, 2)).cloned().collect();
+                    f.extend(all.iter().filter(|n| !gnames.contains(n) && rng.chance(1, 3)).cloned());
+                    if f.is_empty() {
+                        f.push(rng.pick(&gnames).clone());
+                    }
+                    Some(f)
+                }
+            };
+            filters.push(f);
+        }
+        let seed = if rng.chance(1, 3) { 0 } else { (rng.next() & !(1 << 63) & !MEMBER_SPLIT) | 1 };
+        record_extract_seq(sink, &ms, &[], &[], &filters, vec![], seed, "family_alias_names");
+    } else {
+        // extract_archives: 1..3 calls sharing the temp dir list; literal names of the group and globs around it
+        let calls = rng.range(1, 3) as usize;
+        let g0 = rng.pick(&gnames).clone();
+        let d = dir_of(&g0);
+        let base = g0.rsplit('/').find(|s| !s.is_empty() && *s != ".").unwrap_or("x").to_string();
+        let first_char: String = base.chars().take(1).collect();
+        let mut patterns: Vec<String> = vec![];
+        for _ in 0..calls {
+            let p = match rng.below(9) {
+                0 => "**/*".to_string(),
+                1 => format!("{}/*", d),
+                2 => format!("{}/{}*", d, first_char),
+                3 => format!("**/{}", base),
+                4 => format!("*/{}", base),
+                5 => format!("{}/**/*.dlt", d),
+                _ => rng.pick(&gnames).clone(),
+            };
+            patterns.push(p);
+        }
+        let multi = if rng.chance(1, 5) { 2 } else { 1 };
+        record_archives_seq(sink, &ms, &[], *rng.pick(&["arc", "x1"]), &patterns, rng.chance(1, 2), multi, None, "family_alias_names");
+    }
 }
 
 const PATTERNS: &[&str] = &["**/*", "*", "*.dlt", "**/*.dlt", "dir/*", "dir/**/*.dlt", "a.dlt", "../*", "**/../*", "/**/*", "dir/c.dlt", "*/*", "[ab].dlt", "data", "x*", "..", "."];
@@ -1505,6 +1732,16 @@ fn extract_corpus(sink: &mut Sink) {
     for sd in [1u64, 2, 3, 4] {
         record_extract(sink, &[f("one.dlt", b"first member"), f("two.dlt", b"second member")], &[], &[], None, vec![], MEMBER_SPLIT | sd, "witness_member_boundary_split");
     }
+    // members whose names are different strings but the same path: a list / pattern that selects one of them
+    // must extract and report exactly that one, with its own bytes
+    let alias = [f("d/x.dlt", b"<d/x.dlt>"), f("d/y.dlt", b"<d/y.dlt>"), f("d/./x.dlt", b"<d/./x.dlt>"), f("d//x.dlt", b"<d//x.dlt>")];
+    record_extract(sink, &alias, &[], &[], Some(vec!["d/x.dlt".into()]), vec![], 1, "corpus_alias_names");
+    record_extract(sink, &alias, &[], &[], Some(vec!["d//x.dlt".into(), "d/y.dlt".into()]), vec![], 0, "corpus_alias_names");
+    record_archives(sink, &alias, &[], "arc", "d/x*", true, 1, "corpus_alias_names");
+    record_archives(sink, &alias, &[], "arc", "d/./x.dlt", false, 1, "corpus_alias_names");
+    // ... and across calls into the same directory (second call: known finding, see docs/C20.md)
+    record_extract_seq(sink, &alias, &[], &[], &[Some(vec!["d/x.dlt".into()]), Some(vec!["d/./x.dlt".into()]), Some(vec!["d/y.dlt".into(), "d/x.dlt".into()])], vec![], 0, "corpus_alias_names");
+    record_archives_seq(sink, &alias, &[], "arc", &["d/x.dlt".to_string(), "d/./x.dlt".to_string(), "d/*".to_string()], false, 1, None, "corpus_alias_names");
     // already extracted members are reported and kept
     record_extract(sink, &[f("a.dlt", b"A"), f("dir/c.dlt", b"C")], &[], &[("a.dlt".into(), Some(b"A".to_vec()))], Some(vec!["a.dlt".into(), "dir/c.dlt".into()]), vec![], 1, "corpus_reuse");
     // aliases of one location: the last member wins, both are reported
@@ -1573,7 +1810,8 @@ fn main() {
             "archives" => {
                 let ms = spec_from_json(&c["members"]);
                 let dup: Vec<(String, String)> = serde_json::from_value(c["dup"].clone()).unwrap();
-                record_archives(&mut sink, &ms, &dup, c["stem"].as_str().unwrap(), c["pattern"].as_str().unwrap(), c["bang"].as_bool().unwrap_or(false), c["multi_vol"].as_u64().unwrap_or(1), "replay");
+                let pre: Option<Vec<(String, Option<Vec<u8>>)>> = c.get("pre").map(|p| serde_json::from_value(p.clone()).unwrap());
+                record_archives_seq(&mut sink, &ms, &dup, c["stem"].as_str().unwrap(), &[c["pattern"].as_str().unwrap().to_string()], c["bang"].as_bool().unwrap_or(false), c["multi_vol"].as_u64().unwrap_or(1), pre.as_deref(), "replay");
             }
             x => panic!("unknown part {}", x),
         }
@@ -1605,10 +1843,13 @@ fn main() {
             record_chain(&mut sink, vols, ops, files, "");
         }
     }
-    let n2 = a.count.map(|c| c / 4).unwrap_or(if quick { 160 } else if search { 500 } else { 3000 });
+    let n2 = a.count.map(|c| c / 4).unwrap_or(if quick { 250 } else if search { 500 } else { 3000 });
     let mut rng = Rng::new(a.seed ^ 0xC20);
     for i in 0..n2 {
-        if i % 3 == 2 {
+        if i % 5 == 4 {
+            // one in five generated archives holds a group of aliasing member names
+            gen_alias_case(&mut rng, &mut sink);
+        } else if i % 3 == 2 {
             gen_archives_case(&mut rng, &mut sink);
         } else {
             gen_extract_case(&mut rng, &mut sink);
